@@ -44,8 +44,18 @@ type Resolver struct {
 // NewResolver creates a new did:web Resolver with default TLS configuration.
 func NewResolver() *Resolver {
 	return &Resolver{
-		HttpClient: client.NewWithCache(5 * time.Second),
+		HttpClient: client.NewWithCache(5 * time.Second).WithRedirectCheck(sameOriginRedirect),
 	}
+}
+
+// sameOriginRedirect refuses redirects that leave the origin (scheme, host and port) encoded in the did:web DID:
+// the DID document must be served by the host the DID identifies, not by a host chosen by that host's response.
+func sameOriginRedirect(req *http.Request, via []*http.Request) error {
+	if req.URL.Scheme != via[0].URL.Scheme || req.URL.Host != via[0].URL.Host {
+		return fmt.Errorf("redirect to other origin is not allowed for did:web (origin=%s://%s, redirect=%s://%s)",
+			via[0].URL.Scheme, via[0].URL.Host, req.URL.Scheme, req.URL.Host)
+	}
+	return nil
 }
 
 // Resolve implements the DIDResolver interface.
